@@ -169,7 +169,7 @@ theorem go_null_only_if_final_partial_real (K : Keys) (L : Limits) (clock : Cloc
   of the skeleton when the value stored at `ply` is not ply-consistent (`ttBad`) — is down at the end of
   the run; the flag is monotone, so: NO OUT-OF-BAND VALUE WAS STORED IN THIS RUN.  It is measured on
   every search of the `searchx` correspondence suite (the driver prints the flag; never raised).
-  `GoSane` is not needed (`WindowSize = 44`), nor a ghost `anomaly` / `fuelOut` hypothesis.  The former
+  `GoSane` is not needed (`AspLaws`: `WSafe windowSize`, i.e. 39..44 or 78..88 — the real value 44 qualifies), nor a ghost `anomaly` / `fuelOut` hypothesis.  The former
   statements under `nmpOut = false` are kept as COROLLARIES (`…_real_nmp`): `go_ttOut_of_nmpOut_real` proves
   that `nmpOut = false` implies `ttOut = false`, so the hypothesis has become strictly weaker (the
   converse fails: script `nmpout-corpus`).  For the record with the guard (`realCompG`) `nmpOut` provably
@@ -186,7 +186,7 @@ theorem real_scoreLaws_hold (K : Keys) (cs : Eval.CoeffSet Int) :
 theorem real_scoreLaws_guarded (K : Keys) (cs : Eval.CoeffSet Int) :
     ScoreLaws (realCompG K cs) RealGood TTokReal muReal := real_scoreLaws K cs
 
-/-- the parameter laws of the `GoSane`-free argument hold for the real parameters (`WindowSize = 44`,
+/-- the parameter laws of the `GoSane`-free argument hold for the real parameters (`WindowSize = 44` satisfies `WSafe`,
     `RFPScoreFactor = 102`: regenerated constants, re-checked when /repo changes). -/
 theorem real_aspLaws_hold (K : Keys) (cs : Eval.CoeffSet Int) : AspLaws (realCompWith K cs) := real_aspLaws_with K cs
 theorem real_aspLaws_guarded (K : Keys) (cs : Eval.CoeffSet Int) : AspLaws (realCompG K cs) := real_aspLaws K cs
